@@ -102,7 +102,7 @@ func c35CountSide(rs []c35Repo) (n int) {
 }
 
 func (r c35Repo) build(dir string) (string, error) {
-	b := c12Build{Name: r.Name, ID: r.ID, Branches: c12Branches(1), Parallelism: 1, Docs: r.Docs}
+	b := c12Build{Name: r.Name, ID: r.ID, Branches: c12Branches(1), Parallelism: 1, ShardMax: 1 << 16, Docs: r.Docs}
 	if err := b.run(dir); err != nil {
 		return "", err
 	}
@@ -129,7 +129,7 @@ func c35Prepare(s *c35Set, dir string) (inputs []string, live []string, err erro
 			// a metadata-only delta build leaves a sidecar next to the simple shard
 			// (index.SetTombstone is for compound shards only: on a v16 simple shard it
 			// writes a sidecar the reader rejects)
-			mb := c12Build{Name: r.Name, ID: r.ID, Branches: c12Branches(2), Parallelism: 1, IsDelta: true}
+			mb := c12Build{Name: r.Name, ID: r.ID, Branches: c12Branches(2), Parallelism: 1, ShardMax: 1 << 16, IsDelta: true}
 			if err := mb.run(dir); err != nil {
 				return nil, nil, err
 			}
@@ -328,7 +328,7 @@ func TestVerif_C35(t *testing.T) {
 		rec.Violation("harness/no binary", "zoekt-merge-index was not built into $VERIF_BIN", nil)
 		return
 	}
-	sets := c35Sets(rec.Rand(1), rec.N(8, 100))
+	sets := c35Sets(rec.Rand(1), rec.N(4, 40))
 	reps := rec.N(2, 3)
 	rec.Count("input_sets", int64(len(sets)))
 	st := &c35Stats{states: map[string]bool{}, prefixes: map[string]bool{}}
@@ -603,9 +603,20 @@ func c35Enumerate(rec *kit.Rec, s *c35Set, run *c35Run, base string, reps int, s
 	}
 	for _, mode := range []string{"kill", "kill+torn"} {
 		for k := 1; k <= K; k++ {
+			if mode == "kill+torn" {
+				// VERIF_FS_TORN truncates the *.tmp files named by the event; elsewhere it equals the plain kill
+				e, _ := clean.at(k)
+				tmp := false
+				for _, p := range e.Paths {
+					tmp = tmp || strings.HasSuffix(p, ".tmp")
+				}
+				if !tmp {
+					continue
+				}
+			}
 			n := 1
-			if k > firstRen && run.cmd == "explode" {
-				n = reps
+			if k > firstRen && run.cmd == "explode" && mode == "kill" {
+				n = reps // Explode renames in Go map order
 			}
 			for i := 0; i < n; i++ {
 				add(mode, k)
@@ -613,15 +624,14 @@ func c35Enumerate(rec *kit.Rec, s *c35Set, run *c35Run, base string, reps int, s
 		}
 	}
 	for k := 1; k <= F; k++ {
-		n := 1
-		if run.cmd == "explode" {
-			n = reps
-		}
-		for i := 0; i < n; i++ {
-			add("fail", k)
-		}
+		add("fail", k)
 	}
 	parallel(16, jobs)
+	note := map[string]any{"set": s.Name, "cmd": run.cmd, "K": K, "sabotageable_ops": F, "children": len(jobs) + 1, "live_repositories": len(run.live)}
+	if rec.Quick() {
+		note["ops_of_complete_run"] = renderEvents(clean.Events)
+	}
+	rec.Note("run", note)
 	return pdir
 }
 
@@ -674,7 +684,7 @@ func c35Invalid(rec *kit.Rec, s *c35Set, run *c35Run, base string, st *c35Stats,
 	var jobs []func()
 	for vi, v := range variants {
 		donePos := map[int]bool{}
-		for _, pos := range []int{0, len(inputs) - 1, r.IntN(len(inputs))} {
+		for _, pos := range []int{0, 1 + r.IntN(len(inputs)-1)} {
 			if donePos[pos] {
 				continue
 			}
